@@ -62,7 +62,26 @@ def gen_case(ctx, rng, big=False):
             ops.append((k,))
     if big:
         ops += [("set", np.int8(rng.randint(1, 127)), rng.randint(0, 1)), ("predict",), ("score",)]
-    return {"basis": basis, "n_modes": nm, "ctor": ctor, "opt": opt, "seed": seed, "X": X, "ops": ops}
+    fit_kws = None
+    if opt == "gqr" and not big and nf >= 3 and rng.random() < 0.6:
+        # GQR's region keywords travel through SSPOR.fit; the sensor budget GQR plans with is ITS keyword (default: all sensors),
+        # never the model's own n_sensors – otherwise the ranking would depend on how n_sensors was chosen
+        L = sorted(rng.sample(range(nf), rng.randint(1, nf - 1)))
+        o = rng.choice(["exact_n", "max_n", "predetermined", "exact_n"])
+        perm = list(range(nf)); rng.shuffle(perm)
+        fit_kws = {"idx_constrained": L, "n_const_sensors": rng.randint(0, min(len(L), 3)), "all_sensors": perm, "constraint_option": o}
+        if o == "predetermined" or rng.random() < 0.3:
+            fit_kws["n_sensors"] = rng.randint(1, nf)
+        if rng.random() < 0.7:
+            # a small count chosen in the constructor, another one through the setters afterwards
+            ctor = rng.randint(1, max(1, min(ne, nf) - 1))
+            ops.append(("set", rng.choice([v for v in range(1, nf + 1) if v != ctor]), rng.randint(0, 1)))
+    return {"basis": basis, "n_modes": nm, "ctor": ctor, "opt": opt, "seed": seed, "X": X, "ops": ops, "fit_kws": fit_kws}
+
+
+def _kws(case):
+    kw = case.get("fit_kws") or {}
+    return {k: (np.array(v, dtype=int) if isinstance(v, list) else v) for k, v in kw.items()}
 
 
 def build(case, n_sensors):
@@ -102,10 +121,12 @@ def check_case(ctx, case, idx):
     desc["ops"] = [[op[0]] + [repr(x) for x in op[1:]] for op in case["ops"]]
     model = build(case, case["ctor"])
     try:
-        model.fit(X.copy(), quiet=True, seed=case["seed"])
+        model.fit(X.copy(), quiet=True, seed=case["seed"], **_kws(case))
     except ValueError:
         ctx.count("fit_rejected")
         return
+    if case.get("fit_kws"):
+        ctx.count("gqr_region_keywords:" + case["fit_kws"]["constraint_option"])
     rank0 = np.array(model.get_all_sensors()).tolist()
     final = model.n_sensors
     changed = False
@@ -148,7 +169,7 @@ def check_case(ctx, case, idx):
     got = snapshot(model, X)
     fresh = build(case, final)
     try:
-        fresh.fit(X.copy(), quiet=True, seed=case["seed"])
+        fresh.fit(X.copy(), quiet=True, seed=case["seed"], **_kws(case))
     except Exception as e:
         # the history's model holds this count after accepted setter calls; a fresh model with the same count must exist too
         ctx.violation("concrete", f"a fresh model built with n_sensors={final} cannot be fitted ({type(e).__name__}: {e}) although the "
@@ -216,6 +237,7 @@ def replay(ctx: C.Ctx, payload):
     else:
         c = d["case"]
         case = {"basis": c["basis"], "n_modes": c["n_modes"], "ctor": c["ctor"], "opt": c["opt"], "seed": c["seed"],
-                "X": np.array(c["X"], dtype=float), "ops": [tuple([op[0]] + [H._ev(x) for x in op[1:]]) for op in c["ops"]]}
+                "X": np.array(c["X"], dtype=float), "ops": [tuple([op[0]] + [H._ev(x) for x in op[1:]]) for op in c["ops"]],
+                "fit_kws": c.get("fit_kws")}
         check_case(ctx, case, 0)
     print("# replayed:", payload.get("what"))
